@@ -817,7 +817,7 @@ class C16(PropertyCheck):
             exp = [Fraction(0) if b else Fraction(next(it)) for b in mask]
             s = Fraction(case["scale"])
             if [Fraction(v) for v in obs["hdu"]["data"]] != exp:
-                return False, "1-D HDU data is not the native 1-D array (1-D data are never flipped)"
+                return False, "1-D HDU data is not the native 1-D array with zeros at masked entries (1-D data are never flipped)"
             if [Fraction(v) for v in obs["from_hdu"]["native"]] != exp:
                 return False, "1-D array read back from the HDU differs"
             if [Fraction(v) for v in obs["from_hdu"]["scales"]] != [s]:
